@@ -128,10 +128,34 @@ def raise_violation(msg):
     raise Violation(msg)
 
 
+def prepare(case):
+    """-> (frames, source, tokenizer).  With case["pre"] = {"pat", "how"} the
+    tokenizer has already been used on another stream (complete list run, or a
+    generator advanced k items and abandoned): every tokenizer property must
+    hold for such a tokenizer as well."""
+    kind = case.get("kind", "obj")
+    frames, validator, source = make_stream(case["pat"], kind)
+    tk = make_tokenizer(validator, case["p"])
+    pre = case.get("pre")
+    if pre:
+        _f0, _v0, s0 = make_stream(pre["pat"], kind)
+        how = pre.get("how", "list")
+        if how == "list":
+            tk.tokenize(s0)
+        else:
+            g = tk.tokenize(s0, generator=True)
+            for _ in range(how[1]):
+                try:
+                    next(g)
+                except StopIteration:
+                    break
+            tk._vf_keepalive = g  # abandoned, not closed
+    return frames, source, tk
+
+
 def run_case(case):
     """-> (frames, tokens) for a tokenizer case dict."""
-    frames, validator, source = make_stream(case["pat"], case.get("kind", "obj"))
-    tk = make_tokenizer(validator, case["p"])
+    frames, source, tk = prepare(case)
     toks = deliver(tk, source, case.get("deliv", "list"))
     return frames, toks
 
